@@ -61,6 +61,8 @@ type w3Body struct {
 	Mutations   int        `json:"mutations"`
 	Windows     []w3Window `json:"windows,omitempty"`
 	DeleteAfterS int64     `json:"delete_after_s,omitempty"`
+	// C40 runs: every third group of pictures carries other in-band parameters (PPS)
+	AltParams bool `json:"alt_params,omitempty"`
 }
 
 type w3World struct{}
@@ -120,6 +122,9 @@ func (w *w3World) Gen(rng *rand.Rand, property, tier string) (any, simrt.Sched) 
 				b.Phases[i].NTPJumpMs = -b.Phases[i].NTPJumpMs
 			}
 		}
+		if property == "C40" {
+			b.AltParams = rng.Intn(2) == 0
+		}
 		for i := 0; i < 20; i++ {
 			b.Windows = append(b.Windows, w3Window{StartMs: int64(rng.Intn(12000)) - 1000, DurMs: []int64{0, 1, 40, 500, 1000, 2500, 10000}[rng.Intn(7)]})
 		}
@@ -151,6 +156,8 @@ var w3SPS = []byte{
 }
 
 var w3PPS = []byte{0x08, 0x06, 0x07, 0x08}
+
+var w3PPS2 = []byte{0x08, 0x07, 0x08, 0x09}
 
 type w3Written struct {
 	ID    int64
@@ -326,6 +333,10 @@ func (h *w3Harness) record() bool {
 				pl := unit.PayloadH264{nalu}
 				if idr {
 					pl = unit.PayloadH264{w3SPS, w3PPS, nalu}
+					if b.AltParams && (vFrame/int64(b.GOP))%3 == 2 {
+						// in-band parameter change: the stream updates its description in place
+						pl = unit.PayloadH264{w3SPS, w3PPS2, nalu}
+					}
 				}
 				pts := int64(t) * 90000 / int64(time.Second)
 				h.written = append(h.written, w3Written{ID: id, Video: true, IDR: idr, PTS: pts, NTP: ntp, Epoch: epoch})
